@@ -145,6 +145,12 @@ class TodoHooks(SendHooks):
     def setst(self, E, obj, s):
         E.set('$st:%s' % (obj,), fs(s))
 
+    def materialize_split(self, E, path):
+        # todo_do is entered with no scan open or in the middle of one: both, as concrete values, so that a working copy of the handle carries the same fact
+        if path == 'G:tododir':
+            return [fs(0), fs(('dir',))]
+        return None
+
     def prim_trigger_pulled(self, E, x, args):
         return [Outcome(ret=fs(0)), Outcome(ret=fs(1))]
 
